@@ -399,4 +399,8 @@ def run(ck):
     import importlib as _il
     _m = lambda n: _il.import_module('props.' + n)
     _c7.import_results(ck, _m("C05"), "1", "Poll::poll", "5")  # timers are popped against a clock read after the wait
-
+    # ---- shared clauses demonstrated by seeding round 8 (the property broken by added code) --------------------
+    from props import common as _c8
+    import importlib as _il8
+    _m8 = lambda n: _il8.import_module('props.' + n)
+    _c8.import_results(ck, _m8("C07"), "4", "DispatcherInner", "5")  # the dispatcher state protocol: a disabled source stays silent across update()
